@@ -389,7 +389,15 @@ Print Assumptions C18_rounds_are_functions.
    the returned slices uncopied: run_c18 kind 7 prints the decoded values per
    HDec, and they must equal the implementation's (correspondence), and each
    held slice must stay equal to a copy taken when it was returned (oracle
-   c18:<Encoder>:result-aliases-shared-buffer). *)
+   c18:<Encoder>:result-aliases-shared-buffer).  FAILED calls are part of the
+   exercised histories too: a round function whose random source fails after k
+   bytes (sweep over every stage of GarblerRound3 / GarblerRound1 /
+   EvaluatorRound2) is a step that returns Err and, in the model, changes
+   nothing; the harness follows every such fault with two overlapping
+   sessions, whose held Round3 payload must not change and whose digests must
+   be SHA-256(a xor b) (oracle c18:<Round>:entropy-fault@<k>:later-sessions-corrupted):
+   state leaked by an error path (a scratch buffer returned to a pool twice)
+   shows up there. *)
 Theorem C18_history_decodes_own_value :   chunk_limit_ok ->
 forall decompress c ops vals,
   Forall (wf_value decompress c) vals -> Forall (hop_wf decompress c) ops ->
